@@ -391,4 +391,31 @@ def ixSetsOf (V : Hir.VarsOf E B) (p : Program E B G P A) : IxSets := fun r =>
       | _ => none
   all.eraseDups
 
+/-! ## when the plan is usable (the hypothesis of `Props/C01Phys.lean`; decidable, evaluated by the driver on every program of the tie) -/
+
+def increasing : List Nat → Bool
+  | [] => true
+  | [_] => true
+  | a :: b :: t => decide (a < b) && increasing (b :: t)
+
+/-- the plan of one rule is usable: every body clause is compiled to a clause item on the same relation whose index columns
+are strictly increasing and inside the relation's arity, the clause has one argument per column, and the index exists
+(the full index, or one of the allocated column sets) -/
+def ruleOk (V : Hir.VarsOf E B) (p : Program E B G P A) (ix : IxSets) (r : Rule E B G P A) : Bool :=
+  let h := Hir.compileRule V r
+  (List.range r.body.length).all fun i =>
+    match r.body[i]?, h.items[i]? with
+    | some (.clause rel args _), some (.clause rel' cols _) =>
+      rel' == rel && args.length == arityOf p rel && increasing cols && cols.all (· < arityOf p rel) &&
+        (cols.length == arityOf p rel || (ix rel).contains cols)
+    | some (.clause ..), _ => false
+    | _, _ => true
+
+def planOk (V : Hir.VarsOf E B) (p : Program E B G P A) (ix : IxSets) : Bool :=
+  p.rules.all fun r => ruleOk V p ix r && r.heads.all fun h => h.args.length == arityOf p h.rel
+
+/-- a program value the physical engine may be started from: one entry per declared relation, rows of the declared arity -/
+def WFPSt (p : Program E B G P A) (s : PSt) : Prop :=
+  s.length = p.rels.length ∧ ∀ r, ∀ t ∈ (prel s r).rows, t.length = arityOf p r
+
 end AscentVerif.Phys
